@@ -16,6 +16,10 @@ use crate::runner::{Action, Cfg, Oracles, Runner};
 pub struct Base {
     pub cfg: Cfg,
     pub commits: usize,
+    /// by the model's own count of successful commit() calls: the state after the last one and the
+    /// state before it (what one damaged header may at most cost)
+    pub model_last: BucketM,
+    pub model_prev: BucketM,
     pub image: Vec<u8>,
     pub file_len: u64,
     /// states[t] = contents recorded by the header with transaction id t
@@ -38,10 +42,14 @@ pub fn commit_ops(i: usize) -> Vec<OpSpec> {
     ops
 }
 
-pub fn build_base(path: &str, pagesize: u64, commits: usize) -> Result<Base, String> {
+/// `commits` >= 1000 stands for `commits - 1000` modifying commits followed by one write transaction
+/// that changes nothing and is committed.
+pub fn build_base(path: &str, pagesize: u64, commits_code: usize) -> Result<Base, String> {
     let cfg = Cfg { pagesize, num_pages: 32, ..Cfg::default() };
     let mut r = Runner::new(path, cfg.clone())?;
     let mut states = vec![BucketM::default()];
+    let noop_tail = commits_code >= 1000;
+    let commits = commits_code % 1000;
     for i in 1..=commits {
         let v = r.step(&Action::Tx { ops: commit_ops(i), commit: true }, &Oracles::NONE);
         if !v.is_empty() || r.poisoned {
@@ -49,11 +57,21 @@ pub fn build_base(path: &str, pagesize: u64, commits: usize) -> Result<Base, Str
         }
         states.push(r.model.clone());
     }
+    if noop_tail {
+        let v = r.step(&Action::Tx { ops: vec![], commit: true }, &Oracles::NONE);
+        if !v.is_empty() || r.poisoned {
+            return Err(format!("base construction failed at the empty commit: {:?}", v));
+        }
+        states.push(r.model.clone());
+    }
     drop(r);
     let image = std::fs::read(path).map_err(|e| e.to_string())?;
     let file_len = image.len() as u64;
     let hw = fileck::high_water(&image, pagesize);
-    Ok(Base { cfg, commits, image: image[..hw].to_vec(), file_len, states })
+    let n = states.len();
+    let model_last = states[n - 1].clone();
+    let model_prev = states[n.saturating_sub(2)].clone();
+    Ok(Base { cfg, commits: n - 1, image: image[..hw].to_vec(), file_len, states, model_last, model_prev })
 }
 
 #[derive(Clone, Debug)]
@@ -205,7 +223,10 @@ fn run_case(base: &Base, path: &str, slot: usize, d: &Damage) -> CaseResult {
     });
     match r {
         Ok(Ok((got, chk, after))) => {
-            if let Some(diff) = got.diff(want) {
+            if !got.same_contents(&base.model_last) && !got.same_contents(&base.model_prev) {
+                let shown = base.states.iter().position(|s| s.same_contents(&got));
+                res.class = Some(("lost_commit".into(), format!("with one header damaged the database shows {} - neither the state after the last successful commit() nor the one before it", shown.map(|t| format!("the state after commit {}", t)).unwrap_or_else(|| "no committed state".into()))));
+            } else if let Some(diff) = got.diff(want) {
                 // which state did it show instead?
                 let shown = base.states.iter().position(|s| s.same_contents(&got));
                 res.class = Some(("wrong_state".into(), format!("expected the state of tx {} but the open database shows {} (left = observed): {}", want_meta.tx_id, shown.map(|t| format!("the state of tx {}", t)).unwrap_or_else(|| "no committed state".into()), diff)));
@@ -306,7 +327,13 @@ pub fn run(check: &mut Check) {
     let mut meta = vec![];
     for &ps in &sizes {
         let nd = damages(ps as usize, tier).len();
-        for commits in 0..=ncommits {
+        let mut codes: Vec<usize> = (0..=ncommits).collect();
+        // the same with a final write transaction that changes nothing
+        codes.push(1002);
+        if tier == Tier::Thorough {
+            codes.push(1005);
+        }
+        for commits in codes {
             for slot in 0..2 {
                 let mut lo = 0;
                 while lo < nd {
